@@ -18,7 +18,7 @@ From EC Require Import Lib.Outcome Lib.ListW Model.Msgs Model.Replica Model.Repl
   Proofs.ProtocolLiveCatch Proofs.ProtocolLiveNoStop Proofs.ProtocolLiveCommitStep
   Proofs.ProtocolLiveCommitLock Proofs.ProtocolLiveCommit Proofs.ProtocolLiveTimeoutStep
   Proofs.ProtocolLiveTimeoutLock Proofs.ProtocolLiveTimeout Proofs.ProtocolLiveTidy
-  Proofs.ProtocolLiveLockstep Proofs.ProtocolLiveGoals.
+  Proofs.ProtocolLiveLockstep Proofs.ProtocolLiveAlign Proofs.ProtocolLiveGoals.
 From EC Require Proofs.ReplicaCaches Proofs.ReplicaJustified Proofs.ProtocolRefinesStep.
 Import ListNotations.
 Open Scope Z_scope.
@@ -444,6 +444,47 @@ Theorem C06G_implied_tidy : forall P, params_ok P -> forall n s tq,
 Proof. exact implied_tidy. Qed.
 Print Assumptions C06G_implied_tidy.
 
+(* THE REDUCTION: if every reachable state reaches a lockstep state within R0 synchronous rounds
+   (C06_reaches_lockstep R0, a Definition below: NOT proved -- this is (c) in the form that
+   matters), then every honest height grows within R0 + 2(nbyz+1) rounds; for R0 = 4 this is
+   C06_progress_partial exactly as stated. *)
+Theorem C06G_progress_of_reaches_lockstep : forall R0, ProtocolLiveGoals.C06_reaches_lockstep R0 ->
+  forall P pay fetch (nbyz : nat), params_ok P -> env_ok P pay -> forall s, preach P s ->
+  headroom P s (2 * Z.of_nat nbyz + Z.of_nat R0 + 4) ->
+  fetch_ok_run P pay fetch s (2 * nbyz + R0 + 2) ->
+  (forall V, byz_run P V nbyz) ->
+  forall k, honestb P k = true ->
+    height s k < height (sync_rounds P pay fetch (R0 + 2 * (nbyz + 1)) s) k.
+Proof. exact progress_of_reaches_lockstep. Qed.
+Print Assumptions C06G_progress_of_reaches_lockstep.
+
+Theorem C06G_progress_partial_of_reaches_lockstep :
+  ProtocolLiveGoals.C06_reaches_lockstep 4 -> ProtocolLiveGoals.C06_progress_partial.
+Proof. exact progress_partial_of_reaches_lockstep. Qed.
+Print Assumptions C06G_progress_partial_of_reaches_lockstep.
+
+Theorem C06G_reaches_lockstep_unfold : forall R0,
+  ProtocolLiveGoals.C06_reaches_lockstep R0 <->
+  (forall P pay fetch (nbyz : nat), params_ok P -> env_ok P pay -> forall s, preach P s ->
+   headroom P s (2 * Z.of_nat nbyz + Z.of_nat R0 + 4) ->
+   fetch_ok_run P pay fetch s (2 * nbyz + R0 + 2) ->
+   (forall V, byz_run P V nbyz) ->
+   exists V n, 0 < V /\ lockstep P pay (sync_rounds P pay fetch R0 s) V n /\
+               headroom P (sync_rounds P pay fetch R0 s) (Z.of_nat nbyz + 2)).
+Proof. exact (fun R0 => iff_refl _). Qed.
+Print Assumptions C06G_reaches_lockstep_unfold.
+
+(* block stores never shrink along synchronous rounds; in a lockstep state they are exactly at n *)
+Theorem C06G_height_mono_rounds : forall P, params_ok P -> forall pay fetch R s k,
+  preach P s -> honestb P k = true -> height s k <= height (sync_rounds P pay fetch R s) k.
+Proof. exact height_mono_rounds. Qed.
+Print Assumptions C06G_height_mono_rounds.
+
+Theorem C06G_lockstep_height : forall P, params_ok P -> forall pay (fetch : gstate -> Z -> option cqc) s V n,
+  preach P s -> lockstep P pay s V n -> forall k, honestb P k = true -> height s k = n.
+Proof. exact lockstep_height. Qed.
+Print Assumptions C06G_lockstep_height.
+
 (* ingredients of (d) *)
 (* through Layers A and B: a verifying commit certificate without forged signatures is for a
    view below V when every honest node's durable position is below (V, Commit); likewise for
@@ -597,8 +638,9 @@ Print Assumptions C06G_example_byz_leader.
 (* ================================================================== *)
 (* (b) and no_stop are proved above: C06G_catch_up = ProtocolLiveGoals.C06_catch_up 3,
    C06G_no_stop = forall R, ProtocolLiveGoals.C06_no_stop R *)
-(* (c) alignment *)
+(* (c) alignment; and in the form that connects to the proved progress theorem *)
 Definition C06_sync_rounds_align := ProtocolLiveGoals.C06_sync_rounds_align.
+Definition C06_reaches_lockstep := ProtocolLiveGoals.C06_reaches_lockstep.
 (* (d): the first statement is refuted above for R = 4, its first correction (notified leader)
    for R = 3; the statement that holds is C06G_view_commits above *)
 Definition C06_aligned_view_commits := ProtocolLiveGoals.C06_aligned_view_commits.
